@@ -166,16 +166,17 @@ func APIKeyDef(header string) map[string]any {
 
 // Obs is what the collaborators saw for one request.
 type Obs struct {
-	AuthCalls     []string // scheme names in consultation order
-	AuthScopes    map[string][]string
-	AuthzCalls    int
-	AuthzPrinc    any
-	AuthzPrincSet bool
-	Consumers     []string // tags of consumers whose Consume ran
-	Producers     []string
-	HandlerRan    int
-	HandlerOp     string
-	Bound         map[string]any
+	AuthCalls      []string // scheme names in consultation order
+	AuthScopes     map[string][]string
+	AuthCallScopes [][]string // scopes handed over at each consultation, parallel to AuthCalls
+	AuthzCalls     int
+	AuthzPrinc     any
+	AuthzPrincSet  bool
+	Consumers      []string // tags of consumers whose Consume ran
+	Producers      []string
+	HandlerRan     int
+	HandlerOp      string
+	Bound          map[string]any
 }
 
 // World holds the slots; index = request number.
@@ -217,7 +218,7 @@ type AuthOutcome struct {
 type Auth struct {
 	W       *World
 	Scheme  string
-	Outcome func(req int, r *http.Request) AuthOutcome
+	Outcome func(req int, r *http.Request, scopes []string) AuthOutcome
 	OnCall  func() // scheduling point (K2) — may be nil
 }
 
@@ -239,7 +240,8 @@ func (a *Auth) Authenticate(params any) (bool, any, error) {
 	s := a.W.slot(i)
 	s.AuthCalls = append(s.AuthCalls, a.Scheme)
 	s.AuthScopes[a.Scheme] = scopes
-	o := a.Outcome(i, r)
+	s.AuthCallScopes = append(s.AuthCallScopes, scopes)
+	o := a.Outcome(i, r, scopes)
 	return o.Applies, o.Principal, o.Err
 }
 
